@@ -1,6 +1,7 @@
+#[cfg(not(feature = "verif"))]
+use std::collections::HashSet;
 use std::{
     cell::{Cell, RefCell},
-    collections::HashSet,
     fmt::Debug,
     mem,
     ops::DerefMut,
@@ -13,6 +14,8 @@ use compio_driver::{Cancel, Key, OpCode, Proactor};
 use futures_util::{FutureExt, ready};
 use synchrony::unsync::event::{Event, EventListener};
 
+#[cfg(feature = "verif")]
+use crate::verif::OrderedSet as HashSet;
 use crate::{ContextExt, Runtime};
 
 struct Inner {
